@@ -1,6 +1,6 @@
 (* EXTRACT-Z: c07 run_c07 *)
 (* Executable entry point of the C07/C19 matrix-file correspondence: wire case -> wire result. *)
-From OM Require Import Base.Lists Base.Wire Maths.BinCodec Maths.AsciiCodec Maths.IOFront Maths.TexCodec.
+From OM Require Import Base.Lists Base.Wire Maths.BinCodec Maths.AsciiCodec Maths.IOFront Maths.TexCodec Maths.CscCodec.
 Local Open Scope Z_scope.
 
 (* the OCaml driver reads 63-bit integers: a 64-bit word travels as two unsigned 32-bit halves (lo, hi) *)
@@ -74,5 +74,10 @@ Definition run_c07 (w : wire) : wire :=
                  (fun '(k, bs) => outRes (decode_as k bs))
   | 5 :: w' => run_dec getXstream w' (fun s => outRes (tex_decode s))
   | 6 :: w' => run_dec getObj w' (fun o => match o with OFull nl nc vs => outTex (tex_encode nl nc vs) | _ => [-1] end)
+  | 7 :: w' => run_dec getObj w' (fun o => match o with
+        | OSparse nl nc es => let c := write_csc nl nc es in
+            [0; c_nl c; c_nc c; zn (length (c_ir c))] ++ c_ir c ++ [zn (length (c_jc c))] ++ c_jc c ++
+            [zn (length (c_data c))] ++ flat_map w_out (c_data c) ++ outRes (read_csc c)
+        | _ => [-1] end)
   | _ => [-1]
   end.
